@@ -61,6 +61,9 @@ def argument_type_guard(fi: FuncInfo, r: ast.Raise) -> bool:
             continue
         n += 1
         lits = [c for ev in path if ev.kind == 'test' for c in conjuncts(term(ev.node, ev.outcome))]
+        if not lits and any(ev.kind == 'iter' and isinstance(ev.node, ast.For) and any(
+                isinstance(c, ast.Call) and norm(c.func) == 'isinstance' and c.args and norm(c.args[0]).split('.')[0] in params for c in ast.walk(ev.node)) for ev in path):
+            continue        # the search loop over the accepted types, on the path where its table is empty: the raise after the loop is the same fall-through
         if not any(l[0] == 'not' and isinstance(l[1], tuple) and l[1][0] == 'isinstance' and str(l[1][1]).split('.')[0] in params for l in lits):
             return False
 
@@ -533,7 +536,7 @@ def run(ctx, col: Collector):
                                   f'contains a dot, so e.g. an exponent form reaches int() and raises ValueError inside the parse action', node=_N(g), file=g.file)
                         # int() of a digit string of unbounded length: CPython (3.11+) refuses more than sys.int_max_str_digits (4300) digits with ValueError
                         if c.func.id == 'int':
-                            cons2 = f'conversion-length:{a.module.split(".")[-1]}:int@{g.var or g.line}'
+                            cons2 = f'conversion-length:int@{g.var or g.line}'      # keyed by the token, not by where the converting action lives
                             if not any(o.construct == cons2 for o in col.obs):
                                 ln = gt.lengths(g, cap=4300)
                                 if ln is None:
